@@ -38,6 +38,8 @@ type c05Cmd struct {
 	// expiration of 30 minutes nothing is old enough to be folded then; a node that forgot its configuration
 	// (10 minutes by default) would fold -- and drop the output of -- everything.
 	Aged bool `json:"aged,omitempty"`
+	// Fold: the snapshot is taken "much later": every entry is old enough to be folded into the snapshot state
+	Fold bool `json:"fold,omitempty"`
 }
 
 type c05Msg struct {
@@ -114,6 +116,9 @@ func TestVerifC05Node(t *testing.T) {
 			resp := c05Resp{Code: 200}
 			if c.Aged {
 				*canaryCompactionStart = time.Now().Add(20 * time.Minute).UnixNano()
+			}
+			if c.Fold {
+				*canaryCompactionStart = time.Now().Add(1000 * time.Hour).UnixNano()
 			}
 			err := n.raft.Snapshot().Error()
 			*canaryCompactionStart = 0
@@ -307,6 +312,19 @@ func TestVerifC05(t *testing.T) {
 		for _, l := range []string{"NICK v", "USER v 0 * :v", "JOIN #c"} {
 			must(c05Cmd{Op: "post", Sid: V.Sid, Auth: V.Auth, Num: V.Num, Data: l, Cmid: next()})
 		}
+		// a network that has been running for a while: its configuration, its sessions and their channel
+		// memberships are part of a snapshot state, not of the log any more (a snapshot that folds everything,
+		// then a restart).  The brand-new network is the business of TestVerifC05Fresh.
+		if r := must(c05Cmd{Op: "snapshot", Fold: true}); r.Code != 200 {
+			herr(fmt.Errorf("setup snapshot: %s", r.Err))
+		}
+		must(c05Cmd{Op: "stop"})
+		child.cmd.Wait()
+		child.w.Close()
+		if child, err = c05Spawn(dir, false); err != nil {
+			res.HarnessErr = "HARNESS: " + err.Error()
+			break
+		}
 		sess := map[string]c05Resp{"A": A, "B": B}
 		posted := map[string][]*c05Posted{}
 		var lastA *c05Posted
@@ -431,7 +449,8 @@ func TestVerifC05(t *testing.T) {
 				}
 			case "snapshot":
 				res.Snapshots++
-				if r := must(c05Cmd{Op: "snapshot", Aged: true}); r.Code != 200 {
+				// (with everything folded and nothing new in the log copy, a snapshot is refused: nothing to do)
+				if r := must(c05Cmd{Op: "snapshot", Aged: true}); r.Code != 200 && !strings.Contains(r.Err, "first index of ircstore") {
 					herr(fmt.Errorf("snapshot: %s", r.Err))
 				}
 			case "snap+toggleA":
@@ -442,7 +461,9 @@ func TestVerifC05(t *testing.T) {
 				}
 				tp := &c05Posted{line: line, cmid: next()}
 				r := must(c05Cmd{Op: "snappost", Sid: A.Sid, Auth: A.Auth, Num: A.Num, Data: line, Cmid: tp.cmid, Aged: true})
-				if r.Code == -1 {
+				if r.Code == -1 && strings.Contains(r.Err, "first index of ircstore") {
+					// the snapshot was refused before anything happened: the line was not posted
+				} else if r.Code == -1 {
 					herr(fmt.Errorf("%s", r.Err))
 				} else if r.Code != 200 {
 					res.report(sigs, "C05", "POST refused while a snapshot is being written", fmt.Sprintf("sequence %v op %d: %d %s", seq, oi, r.Code, r.Err), seq)
